@@ -308,10 +308,22 @@ Fixpoint inttype_loop (tg : target) (rows : list (basic * list Z * list Z)) (ski
       end
   end.
 
+(* since /repo 'fix: reject the integer suffixes lL and Ll': the lower-casing loop first rejects an `l` next to an `L` *)
+Fixpoint mixed_ll (s : list Z) : bool :=
+  match s with
+  | a :: r =>
+      match r with
+      | b :: _ => ((a =? 108) && (b =? 76)) || ((a =? 76) && (b =? 108)) || mixed_ll r
+      | [] => false
+      end
+  | [] => false
+  end.
+
 Definition inttype (tg : target) (val : Z) (decimal : bool) (suffix : list Z) : option basic :=
   let sfx := map tolower suffix in
   let i := suffix_index limits sfx 0 in
-  if Nat.eqb i (length limits) then None                    (* error: invalid suffix *)
+  if mixed_ll suffix then None                              (* error: invalid suffix *)
+  else if Nat.eqb i (length limits) then None               (* error: invalid suffix *)
   else
     let step := if negb (Nat.eqb (Nat.modulo i 2) 0) || decimal then 2%nat else 1%nat in
     inttype_loop tg limits i step val.
@@ -373,7 +385,7 @@ Definition nullpointer (e : operand) : bool :=
   | Some v =>
       if same_object (otype e) TNullptr then true
       else if negb (has (prop (otype e)) PROPINT)
-              && negb (match otype e with TPtr b _ => same_object b TVoid | _ => false end) then false
+              && negb (match otype e with TPtr b q => same_object b TVoid && (q =? 0) | _ => false end) then false
       else v =? 0
   end.
 
